@@ -98,7 +98,7 @@ func VerifC11Atomic() {
 	nd.Assert(vPut(c, vItem{"p": vS("k"), "n": vN("0")}) == nil, "setup-put")
 	nd.Track(c)
 	tbl := aws.String(vTbl)
-	switch nd.Choice("pair", 14) {
+	switch nd.Choice("pair", 15) {
 	case 0: // N concurrent ADD 1 yield N
 		add := func() {
 			c.UpdateItem(vCtx, &dynamodb.UpdateItemInput{TableName: tbl, Key: vItem{"p": vS("k")}, UpdateExpression: aws.String("ADD n :one"), ExpressionAttributeValues: vItem{":one": vN("1")}})
@@ -220,6 +220,18 @@ func VerifC11Atomic() {
 		nd.Par(func() { o1, e1 = c.Scan(vCtx, &dynamodb.ScanInput{TableName: tbl, IndexName: aws.String(vIdx)}) },
 			func() { o2, e2 = c.Scan(vCtx, &dynamodb.ScanInput{TableName: tbl, IndexName: aws.String(vIdx)}) })
 		nd.Assert(e1 == nil && e2 == nil && len(o1.Items) == 2 && len(o2.Items) == 2, "C11-concurrent-index-reads-return-the-whole-index")
+	case 14: // two deletes of one item that ask for the old item: exactly one of them removed it and gets it
+		var o1, o2 *dynamodb.DeleteItemOutput
+		var e1, e2 error
+		nd.Par(func() {
+			o1, e1 = c.DeleteItem(vCtx, &dynamodb.DeleteItemInput{TableName: tbl, Key: vItem{"p": vS("k")}, ReturnValues: types.ReturnValueAllOld})
+		}, func() {
+			o2, e2 = c.DeleteItem(vCtx, &dynamodb.DeleteItemInput{TableName: tbl, Key: vItem{"p": vS("k")}, ReturnValues: types.ReturnValueAllOld})
+		})
+		nd.Assert(e1 == nil && e2 == nil, "C11-two-deletes-complete")
+		if e1 == nil && e2 == nil {
+			nd.Assert((len(o1.Attributes) > 0) != (len(o2.Attributes) > 0), "C11-exactly-one-delete-returns-the-old-item")
+		}
 	case 11: // two conditional updates taking a lock attribute: exactly one wins
 		var e1, e2 error
 		take := func(e *error, who string) func() {
